@@ -38,7 +38,7 @@ def _remap(x, lo, bo, po):
     return out
 
 
-def inline_body(prog, body, known, depth=0, stack=()):
+def inline_body(prog, body, known, depth=0, stack=(), force=None):
     """returns a new body json with unknown local callees inlined, or None if nothing to do"""
     j = body.j
     todo = []
@@ -53,7 +53,9 @@ def inline_body(prog, body, known, depth=0, stack=()):
         if key not in prog.bodies:
             key2 = body.crate + '::' + name
             key = key2 if key2 in prog.bodies else None
-        if key is None or key in known or key in stack or key == prog.key_of(body):
+        if key is None or key in stack or key == prog.key_of(body):
+            continue
+        if (key in known) if force is None else (key not in force):
             continue
         cb = prog.bodies[key]
         if cb.kind == 'Closure' or cb.n > MAX_BLOCKS or cb.crate != body.crate:
@@ -71,7 +73,7 @@ def inline_body(prog, body, known, depth=0, stack=()):
         cb = prog.bodies[key]
         # the callee may itself contain unknown helpers
         if depth < MAX_DEPTH:
-            sub = inline_body(prog, cb, known, depth + 1, stack + (prog.key_of(body), key))
+            sub = inline_body(prog, cb, known, depth + 1, stack + (prog.key_of(body), key), force)
             cj = sub if sub is not None else cb.j
         else:
             cj = cb.j
@@ -123,3 +125,14 @@ def apply(prog, verif_dir):
         prog._callers = None
     prog.inlined_bodies = n
     return n
+
+
+def force(prog, body, keys):
+    """a copy of `body` in which the calls to the given (known) crate-local functions are inlined one level: used by rules that follow a
+    value through a thin wrapper of the repository (e.g. tpkt::Client::start_ssl around Link::start_ssl)"""
+    nj = inline_body(prog, body, set(), depth=MAX_DEPTH - 2, force=set(keys))
+    if nj is None:
+        return body
+    nb = Body(nj, body.crate)
+    nb.parent = getattr(body, 'parent', None)
+    return nb
